@@ -130,9 +130,9 @@ fn run_c17(args: &Args) -> i32 {
     let n = ctx.corpus.len() as u64;
     // (stream, cases, worlds per case, rcomp vehicles allowed)
     let plan: Vec<(u64, u64, usize, bool)> = if args.tier == "quick" {
-        vec![(0, scaled(n * 3, args.scale), 3, true), (1, scaled(400, args.scale), 3, true), (2, scaled(16 * c17::TOGGLES.len() as u64, args.scale), 1, true)]
+        vec![(0, scaled(n * 3, args.scale), 3, true), (1, scaled(400, args.scale), 3, true), (2, scaled(16 * c17::TOGGLES.len() as u64, args.scale), 1, true), (4, scaled(n * 2, args.scale), 3, true)]
     } else {
-        vec![(0, scaled(n * 40, args.scale), 6, true), (1, scaled(30_000, args.scale), 6, true), (2, scaled(16 * c17::TOGGLES.len() as u64, args.scale), 1, true), (3, scaled(16 * (c17::TOGGLES.len() * c17::TOGGLES.len()) as u64, args.scale), 1, true)]
+        vec![(0, scaled(n * 40, args.scale), 6, true), (1, scaled(30_000, args.scale), 6, true), (2, scaled(16 * c17::TOGGLES.len() as u64, args.scale), 1, true), (3, scaled(16 * (c17::TOGGLES.len() * c17::TOGGLES.len()) as u64, args.scale), 1, true), (4, scaled(n * 12, args.scale), 3, true)]
     };
     let summaries = match pool::fan_out(args.workers, &|w, nw| {
         let env = make_env(args, w);
